@@ -48,3 +48,31 @@ Proof.
     intros H; repeat (destruct H as [H|H]; try discriminate H); try contradiction.
 Qed.
 Print Assumptions C14_valid_basis_example.
+
+(* load_same_solution: loading the basis read back from the file reproduces the basic solution and the verdicts of the basis
+   that was written.  The file changes column statuses only between at-lower and free (C14_differences_only_nonbasic_free);
+   ILLbasis_load (model Fac/Basis.v [loaded_basis], tied by the correspondence of C12) sends both to the same status, so the
+   loaded bases are equal - and with them the exact basic solution (xB_of, pi_of, zfull) and the results of
+   QSexact_basis_optimalstatus / _dualstatus (lib_optimalstatus, lib_dualstatus). *)
+From QSX Require Import Fac.BasisLoad IO.BasLoad.
+
+Theorem C14_load_same_basis :
+  forall M P (cols : list (N * Bas.st * bool)) rs,
+    loaded_basis M P (mk_basis (map Bas.norm cols) rs) = loaded_basis M P (mk_basis (map Bas.cstat cols) rs).
+Proof. exact load_same_basis. Qed.
+Print Assumptions C14_load_same_basis.
+
+Theorem C14_load_same_solution :
+  forall M P ns isR cols rows, Bas.valid_basis cols rows ->
+  exists L cs' rs',
+    Bas.write_basis cols rows = Some L /\ Bas.read_basis cols (map fst rows) L = Some (cs', rs') /\
+    let B := mk_basis (map Bas.cstat cols) (map snd rows) in
+    let B' := mk_basis cs' rs' in
+    loaded_basis M P B' = loaded_basis M P B /\
+    xB_of P (loaded_basis M P B') = xB_of P (loaded_basis M P B) /\
+    pi_of P (loaded_basis M P B') = pi_of P (loaded_basis M P B) /\
+    (forall xB, zfull P (loaded_basis M P B') xB = zfull P (loaded_basis M P B) xB) /\
+    lib_optimalstatus M P ns isR B' = lib_optimalstatus M P ns isR B /\
+    (forall g, lib_dualstatus M P ns isR B' g = lib_dualstatus M P ns isR B g).
+Proof. exact load_same_solution. Qed.
+Print Assumptions C14_load_same_solution.
